@@ -75,8 +75,11 @@
 (*                           the loser's (none for the same MAC)             *)
 (*    ConflictSymmetric      the two sites looking at the same pair of       *)
 (*                           allocations (local/remote swapped) keep the     *)
-(*                           same allocation (the documentation is silent    *)
-(*                           about equal timestamps; separate clause)        *)
+(*                           same allocation, timestamps different           *)
+(*    ConflictTieSymmetric   the same for equal timestamps (the strategy     *)
+(*                           names no winner then; that both sites must      *)
+(*                           still agree is not written down anywhere:       *)
+(*                           separate clause)                                *)
 (*                                                                         *)
 (* Unconstrained: everything else (statistics, Retries counters, what       *)
 (* happens to the data of merged requests, how long reconciliation takes,   *)
@@ -169,15 +172,19 @@ HandlerClauses(cfg, g, e) ==
 \* ---- S4-S6: the queue ----------------------------------------------------------------------
 Expired(cfg, a, off) == a + off > cfg.ttl
 
+\* handing out the request at position i of ord: the ones ahead of it were skipped (expired) and are gone
+Skip(q, ord, i) == [m \in DOMAIN q |-> IF \E j \in 1..(i - 1) : ord[j] = m THEN [q[m] EXCEPT !.q = FALSE, !.hi = 0, !.lo = 0] ELSE q[m]]
+
 \* effect of the operation itself (at offset 0) on [q, ord]
 OpEffect(cfg, g, e) ==
   IF e.op = "enq" /\ e.acc THEN
        IF g.q[e.a].q THEN [q |-> [g.q EXCEPT ![e.a].lo = 0], ord |-> g.ord]
        ELSE [q |-> [g.q EXCEPT ![e.a].q = TRUE, ![e.a].hi = 0, ![e.a].lo = 0], ord |-> Append(g.ord, e.a)]
   ELSE IF e.op = "deq" /\ e.ret > 0 THEN
-       [q |-> [g.q EXCEPT ![e.ret].q = FALSE], ord |-> DropUpTo(g.ord, IndexOf(g.ord, e.ret))]
+       [q |-> [Skip(g.q, g.ord, IndexOf(g.ord, e.ret)) EXCEPT ![e.ret].q = FALSE, ![e.ret].hi = 0, ![e.ret].lo = 0],
+        ord |-> DropUpTo(g.ord, IndexOf(g.ord, e.ret))]
   ELSE IF e.op = "rem" THEN
-       [q |-> [g.q EXCEPT ![e.a].q = FALSE], ord |-> Without(g.ord, e.a)]
+       [q |-> [g.q EXCEPT ![e.a].q = FALSE, ![e.a].hi = 0, ![e.a].lo = 0], ord |-> Without(g.ord, e.a)]
   ELSE [q |-> g.q, ord |-> g.ord]
 
 \* requests ahead of position i that surely have not expired at offset off
@@ -194,21 +201,27 @@ OpClauses(cfg, g, e) ==
        ELSE IF LiveAhead(cfg, g.q, g.ord, IndexOf(g.ord, e.ret), 0) # {} THEN {"FifoOrder"} ELSE {}
   ELSE {}
 
+\* an upper bound of the queue length: the contract's q is a superset of the queue's content
+MaybeQueued(q) == Cardinality({m \in DOMAIN q : q[m].q})
+
 \* acc = [q, ord, bad]; r = [k ("start" | "end"), m, ok, off]
 RqOne(cfg, acc, r) ==
   LET x == acc.q[r.m]
       i == IndexOf(acc.ord, r.m)
   IN IF r.k = "start" THEN
-       [q   |-> [acc.q EXCEPT ![r.m] = [q |-> FALSE, hi |-> 0, lo |-> 0, fl |-> TRUE, fhi |-> x.hi, flo |-> x.lo]],
+       [q   |-> [Skip(acc.q, acc.ord, i) EXCEPT ![r.m] = [q |-> FALSE, hi |-> 0, lo |-> 0, fl |-> TRUE, fhi |-> x.hi, flo |-> x.lo]],
         ord |-> IF i = 0 THEN acc.ord ELSE DropUpTo(acc.ord, i),
         bad |-> acc.bad
                 \cup (IF ~x.q THEN {"AtMostOnce"} ELSE {})
                 \cup (IF x.q /\ Expired(cfg, x.lo, r.off) THEN {"NoProcessAfterExpiry"} ELSE {})
                 \cup (IF x.q /\ i > 0 /\ LiveAhead(cfg, acc.q, acc.ord, i, r.off) # {} THEN {"FifoOrder"} ELSE {})]
-     ELSE IF r.ok \/ x.q \/ Expired(cfg, x.flo, r.off) THEN
-       [acc EXCEPT !.q[r.m].fl = FALSE]
-     ELSE      \* failed, still valid: "Re-queue if still valid" (to the back)
-       [q   |-> [acc.q EXCEPT ![r.m] = [q |-> TRUE, hi |-> x.fhi, lo |-> x.flo, fl |-> FALSE, fhi |-> 0, flo |-> 0]],
+     ELSE IF r.ok \/ ~x.fl \/ x.q \/ Expired(cfg, x.flo, r.off) THEN
+       [acc EXCEPT !.q[r.m].fl = FALSE, !.q[r.m].fhi = 0, !.q[r.m].flo = 0]
+     ELSE      \* failed, still valid: "Re-queue if still valid" (to the back).  If the queue may have filled up
+               \* meanwhile ("request queue full") the request may have been dropped instead: it is then kept
+               \* as "possibly gone" (hi saturated), i.e. it neither counts as surely live nor blocks later ones
+       [q   |-> [acc.q EXCEPT ![r.m] = [q |-> TRUE, hi |-> IF MaybeQueued(acc.q) >= cfg.qsize THEN Cap(cfg) ELSE x.fhi,
+                                        lo |-> x.flo, fl |-> FALSE, fhi |-> 0, flo |-> 0]],
         ord |-> Append(acc.ord, r.m),
         bad |-> acc.bad]
 
@@ -219,7 +232,8 @@ RqResult(cfg, g, e) ==
   LET o == OpEffect(cfg, g, e) IN RqFold(cfg, [q |-> o.q, ord |-> o.ord, bad |-> {}], e.rqs, 1)
 
 Aged(cfg, q, dt) ==
-  [m \in DOMAIN q |-> [q[m] EXCEPT !.hi = Age(cfg, @, dt), !.lo = Age(cfg, @, dt), !.fhi = Age(cfg, @, dt), !.flo = Age(cfg, @, dt)]]
+  [m \in DOMAIN q |-> [q[m] EXCEPT !.hi = IF q[m].q THEN Age(cfg, @, dt) ELSE 0, !.lo = IF q[m].q THEN Age(cfg, @, dt) ELSE 0,
+                                    !.fhi = IF q[m].fl THEN Age(cfg, @, dt) ELSE 0, !.flo = IF q[m].fl THEN Age(cfg, @, dt) ELSE 0]]
 
 \* ---- S7: conflicts ------------------------------------------------------------------------
 \* e.inst: the pairs of allocations present when the step began, <<[k, side, samemac, samesub, samesite, lpart, rpart, cmp]>>
@@ -248,10 +262,10 @@ ConflictClauses(cfg, g, e) ==
                  \/ Winner(e.cfs[i]) = "other"
                  \/ e.cfs[i].aff # (IF c.samemac THEN "none" ELSE Other(Winner(e.cfs[i])))
           THEN {"ConflictRule"} ELSE {})
-  \cup (IF \E i, j \in 1..Len(e.cfs) :
-              /\ e.cfs[i].k = e.cfs[j].k /\ e.cfs[i].side = "fwd" /\ e.cfs[j].side = "rev"
-              /\ Winner(e.cfs[i]) # Other(Winner(e.cfs[j]))
-          THEN {"ConflictSymmetric"} ELSE {})
+  \cup UNION {IF /\ e.cfs[i].k = e.cfs[j].k /\ e.cfs[i].side = "fwd" /\ e.cfs[j].side = "rev"
+                 /\ Winner(e.cfs[i]) # Other(Winner(e.cfs[j]))
+                THEN {IF \E c \in Range(e.inst) : c.k = e.cfs[i].k /\ c.cmp = "tie" THEN "ConflictTieSymmetric" ELSE "ConflictSymmetric"}
+                ELSE {} : i \in 1..Len(e.cfs), j \in 1..Len(e.cfs)}
 
 \* ---- the contract -------------------------------------------------------------------------
 EdgeClauses(cfg, g, e) ==
